@@ -273,6 +273,8 @@ def merge_value(c, a, b, sa, sb, out):
         ta = 'none'
     if b is None:
         tb = 'none'
+    if (a is None and isinstance(b, tuple)) or (b is None and isinstance(a, tuple)):
+        raise MergeFail('None vs tuple: kept on separate paths')
     t = unify_ty(ta, tb)
     if t is None or t == 'none':
         raise MergeFail('cannot merge %r / %r' % (a, b))
